@@ -3,7 +3,7 @@
 //! Provides append-only file logging for command persistence and replay.
 
 use std::fs::{File, OpenOptions};
-use std::io::{Write, BufWriter, BufReader, BufRead};
+use std::io::{Write, BufWriter};
 use std::path::PathBuf;
 use std::sync::{Arc, Mutex};
 use std::time::{Duration, Instant};
@@ -115,25 +115,26 @@ impl AofEngine {
             return Ok(());
         }
         
-        let file = File::open(&self.file_path)?;
-        let reader = BufReader::new(file);
+        // The file is binary (arguments are arbitrary bytes): read it as bytes, not as UTF-8 lines
+        let data = std::fs::read(&self.file_path)?;
         let mut parser = RespParser::new();
+        parser.feed(&data);
         
-        // Read and replay all commands
-        for line in reader.lines() {
-            let line = line?;
-            parser.feed(line.as_bytes());
-            parser.feed(b"\n");
-            
-            while let Some(frame) = parser.parse()? {
-                // Execute command against storage
-                // This is simplified - in reality we'd need the full command processor
-                match frame {
+        // Read and replay all complete commands; a torn last frame (crash in the middle of an append) is ignored
+        loop {
+            match parser.parse() {
+                Ok(Some(frame)) => match frame {
                     RespFrame::Array(Some(parts)) if !parts.is_empty() => {
-                        // Process command
+                        // Execute command against storage
+                        // This is simplified - in reality we'd need the full command processor
                         self.replay_command(storage, &parts)?;
                     }
                     _ => continue,
+                },
+                Ok(None) => break,
+                Err(e) => {
+                    eprintln!("AOF: stopped reading at a malformed frame: {}", e);
+                    break;
                 }
             }
         }
